@@ -26,6 +26,7 @@
 import Ark.Proofs.Stats
 import Ark.Props.C01Struct
 import Ark.Model.Ops
+import Ark.Props.C19Hist
 
 namespace Ark.Props.C19
 open Ark Ark.World
@@ -369,5 +370,50 @@ end Small
 
 /-- no two archetypes have the same component set (structural invariant) -/
 theorem archetype_masks_unique : type_of% @Ark.Props.C01Struct.archetype_masks_unique := @Ark.Props.C01Struct.archetype_masks_unique
+
+
+/-! ### Over histories (Props/C19Hist) -/
+
+/-- along every history of entity operations (the eleven of the refinement machine), filter definition/registration and `Stats()` calls, the invariant holds and the stored statistics object stays compatible with the world -/
+theorem hist_reach3_invariant : type_of% @Ark.Props.C19Hist.reach3_invariant := @Ark.Props.C19Hist.reach3_invariant
+
+/-- **C19, second sentence**: at every `Stats()` call of every history the incrementally updated statistics equal the fresh computation on the current world -/
+theorem hist_stats_incremental_eq_fresh : type_of% @Ark.Props.C19Hist.stats_incremental_eq_fresh := @Ark.Props.C19Hist.stats_incremental_eq_fresh
+
+/-- … and equal those of a world that replays the history without the `Stats()` calls and is asked once -/
+theorem hist_stats_incremental_eq_replay : type_of% @Ark.Props.C19Hist.stats_incremental_eq_replay := @Ark.Props.C19Hist.stats_incremental_eq_replay
+
+/-- the history with `Stats()` calls reaches the same world, up to the statistics object, as the history without them -/
+theorem hist_history_replay : type_of% @Ark.Props.C19Hist.history_replay := @Ark.Props.C19Hist.history_replay
+
+/-- no operation reads the statistics object: run on a world with another object it succeeds alike, returns the same handle and leaves the same world up to `stats` -/
+theorem hist_no_operation_reads_stats : type_of% @Ark.Props.C19Hist.no_operation_reads_stats := @Ark.Props.C19Hist.no_operation_reads_stats
+
+/-- every successful operation only appends archetypes/tables and keeps the statistics object -/
+theorem hist_every_operation_is_sstep : type_of% @Ark.Props.C19Hist.every_operation_is_sstep := @Ark.Props.C19Hist.every_operation_is_sstep
+
+/-- **C19, first sentence**: the statistics returned at any point of any history agree with the contents (all clauses of `Agree`) -/
+theorem hist_stats_agree : type_of% @Ark.Props.C19Hist.stats_agree := @Ark.Props.C19Hist.stats_agree
+
+/-- `used` = number of specification entries = number of alive issued handles = Σ archetype sizes = Σ table sizes -/
+theorem hist_used_four_ways : type_of% @Ark.Props.C19Hist.used_four_ways := @Ark.Props.C19Hist.used_four_ways
+
+/-- `total = used + recycled` -/
+theorem hist_total_eq : type_of% @Ark.Props.C19Hist.total_eq := @Ark.Props.C19Hist.total_eq
+
+/-- an archetype's `size` is the number of entities with exactly that component set -/
+theorem hist_arch_size : type_of% @Ark.Props.C19Hist.arch_size := @Ark.Props.C19Hist.arch_size
+
+/-- no two archetype entries have the same component list, and every component set in use has its entry -/
+theorem hist_arch_unique_complete : type_of% @Ark.Props.C19Hist.arch_unique_complete := @Ark.Props.C19Hist.arch_unique_complete
+
+/-- every table's `size ≤ capacity` -/
+theorem hist_table_size_le : type_of% @Ark.Props.C19Hist.table_size_le := @Ark.Props.C19Hist.table_size_le
+
+/-- memory figures are the documented products and sums, `memoryUsed ≤ memory` -/
+theorem hist_memory_figures : type_of% @Ark.Props.C19Hist.memory_figures := @Ark.Props.C19Hist.memory_figures
+
+/-- `cachedFilters`, `observers`, `locked`, `numComponents` match what is registered -/
+theorem hist_counters : type_of% @Ark.Props.C19Hist.counters := @Ark.Props.C19Hist.counters
 
 end Ark.Props.C19
